@@ -177,6 +177,22 @@ def runE (s : St) (evs : List Ev) : St := evs.foldl stepE s
 @[simp] theorem runE_nil (s : St) : runE s [] = s := rfl
 @[simp] theorem runE_cons (s : St) (e : Ev) (r : List Ev) : runE s (e :: r) = runE (stepE s e) r := rfl
 
+/-! ### Stale locks and `eups admin clearLocks`
+
+A process that is killed outright (SIGKILL, power cut; SIGTERM during `takeLocks`) releases nothing: its lock file
+stays, with an owner that makes no further call.  The protocol cannot tell it from a live holder — every incompatible
+request is refused — until the administrator runs `eups admin clearLocks` (`lock.clearLocks`: `shutil.rmtree` of the
+lock directory), which is outside the protocol: it removes the files of live holders just the same. -/
+
+/-- the initial state with lock files left behind by killed processes (`ghosts`: their kinds and pids; such a process
+is `killed` from the start: scheduling it does nothing) -/
+def initStale (kind : Pid → Kind) (lp : Pid → Option Pid) (tries : Pid → Nat) (ghosts : List (Kind × Pid)) : St :=
+  { dir := !ghosts.isEmpty, files := ghosts, kind := kind, lp := lp,
+    pc := fun i => if ghosts.any (fun g => g.2 == i) then .killed else .mkdir (tries i) }
+
+/-- `lock.clearLocks`: the lock directory is removed with everything in it -/
+def clearLocks (s : St) : St := { s with dir := false, files := [] }
+
 /-! ### What a step looks like from outside (compared with the real calls by the correspondence) -/
 
 inductive Call
